@@ -6,6 +6,7 @@
 (b) counting: the multiset of (instance path, schema path) equals the
     reference evaluator's "one error per violation" expectation.
 """
+import collections
 import json
 
 from mc.props import _e1
@@ -162,9 +163,14 @@ def plan(ctx):
         sizes["ref_sibling_schemas_d%d" % d] = len(ref_schemas(d))
         units += [(d, "refs", i, 6) for i in range(6)]
         units += [(d, "shared", kind, i, 3) for kind in ("singles", "groups") for i in range(3)]
+        sizes["defaulting_schemas_d%d" % d] = len(defaulting_schemas(d, ctx.tier))
+        units += [(d, "defaulting", i, 6) for i in range(6)]
     return {
         "units": units,
-        "rule": ("SHARED VALIDATOR: every single and sibling group x the pair universe through ONE long-lived validator "
+        "rule": ("DEFAULTING INSTANCES: sibling groups and ordered pairs with an object keyword x every instance "
+                 "containing an object, given as collections.defaultdict (answers for keys it is asked about): same "
+                 "(keyword, path, schema path) multiset as for the plain dict, and the instance does not grow.  "
+                 "SHARED VALIDATOR: every single and sibling group x the pair universe through ONE long-lived validator "
                  "object that gets a new copy of the schema per call, vs. a validator built for the schema.  REFERENCES: every ordered pair of keyword slots (and probe-between-two-users triples) whose "
                  "subschemas are $ref's into the same document and into a store document (same pointers, other "
                  "meaning) x 12 instances, decomposition half only.  G(draft) x U as in C01 (singles, all ordered pairs, sibling groups, nested); one "
@@ -290,9 +296,94 @@ def run_shared(unit, ctx):
             "counters": {"shared_validator_schemas": nsch}}
 
 
+OBJECT_KW = {"properties", "patternProperties", "additionalProperties", "required", "dependencies", "minProperties",
+             "maxProperties", "propertyNames"}
+
+
+def as_defaulting(x):
+    """The same members, in a mapping that fills in an answer for every key it is *asked* about (defaultdict):
+    a keyword that asks about an absent member must not thereby show it to the other keywords."""
+    if isinstance(x, dict):
+        return collections.defaultdict(list, ((k, as_defaulting(v)) for k, v in x.items()))
+    if isinstance(x, list):
+        return [as_defaulting(v) for v in x]
+    return x
+
+
+def plain_again(x):
+    if isinstance(x, dict):
+        return {k: plain_again(v) for k, v in x.items()}
+    if isinstance(x, list):
+        return [plain_again(v) for v in x]
+    return x
+
+
+def defaulting_schemas(d, tier):
+    out = [S for S in _e1.get_list("groups", d, tier) if isinstance(S, dict) and OBJECT_KW & set(S)]
+    sg = [(k, v) for k, v in _e1.get_singles(d, tier) if k in OBJECT_KW or k in ("items", "not", "allOf", "anyOf", "extends")]
+    from mc.enum import schemas
+    for S in schemas.ordered_pairs(sg):
+        if OBJECT_KW & set(S):
+            out.append(S)
+    return out
+
+
+def run_defaulting(unit, ctx):
+    d, _, shard, n = unit
+    U = [x for x in _e1.get_universe(ctx.tier, "pairs-small") if isinstance(x, (dict, list)) and "{" in json.dumps(x)]
+    lst = defaulting_schemas(d, ctx.tier)
+    ev = nt = nsch = 0
+    viol, outcomes = [], {}
+    for i in range(shard, len(lst), n):
+        S = lst[i]
+        if not _e1.accepted(d, S):
+            continue
+        nsch += 1
+        v = _e1.CLS[d](S)
+        for x in U:
+            ev += 1
+            try:
+                want = sorted(((e.validator, tuple(e.path), tuple(e.schema_path)) for e in v.iter_errors(x)), key=repr)
+            except Exception:
+                continue
+            xd = as_defaulting(x)
+            try:
+                got = sorted(((e.validator, tuple(e.path), tuple(e.schema_path)) for e in v.iter_errors(xd)), key=repr)
+            except Exception as e:
+                got = "crash " + type(e).__name__
+            if want:
+                nt += 1
+            grown = plain_again(xd) != x
+            key = "defaulting-agrees" if (got == want and not grown) else "DEFAULTING-DISAGREES"
+            outcomes[key] = outcomes.get(key, 0) + 1
+            if got != want or grown:
+                small = _e1.shrink_keys(S, lambda c: _e1.accepted(d, c) and defaulting_differs(d, c, x))
+                viol.append({"signature": "C05|defaulting-instance|%s|%s" % ("instance-grew" if grown else "errors-differ",
+                                                                            _e1.kwsig(small)),
+                             "size": len(str(small)) + len(str(x)),
+                             "case": {"draft": d, "schema": small, "instance": x, "defaulting": True},
+                             "detail": {"plain_dict": want, "defaulting_dict": got, "instance_after": plain_again(xd),
+                                        "unshrunk_schema": S}})
+    return {"evaluations": ev, "nontrivial": nt, "violations": viol, "samples": [], "outcomes": outcomes,
+            "counters": {"defaulting_schemas": nsch}}
+
+
+def defaulting_differs(d, S, x):
+    v = _e1.CLS[d](S)
+    want = sorted(((e.validator, tuple(e.path), tuple(e.schema_path)) for e in v.iter_errors(x)), key=repr)
+    xd = as_defaulting(x)
+    try:
+        got = sorted(((e.validator, tuple(e.path), tuple(e.schema_path)) for e in v.iter_errors(xd)), key=repr)
+    except Exception:
+        return True
+    return got != want or plain_again(xd) != x
+
+
 def run_unit(unit, ctx):
     if unit[1] == "refs":
         return run_refs(unit, ctx)
+    if unit[1] == "defaulting":
+        return run_defaulting(unit, ctx)
     if unit[1] == "shared":
         return run_shared(unit, ctx)
     d = unit[0]
@@ -345,6 +436,8 @@ def run_unit(unit, ctx):
 
 def replay(case, ctx):
     d, S, x = case["draft"], case["schema"], case["instance"]
+    if case.get("defaulting"):
+        return {"reproduced": defaulting_differs(d, S, x)}
     if case.get("shared"):
         # the failure depends on what the long-lived validator saw before: replay the unit's prefix up to the case
         W = _e1.CLS[d]({})
